@@ -27,7 +27,7 @@ Definition m_contains (s : iset) (x : K) : bool := d_mem (imap s) x.
 Definition dead_count (s : iset) : nat := length (items s) - length (imap s).
 
 (* ---- list primitives ------------------------------------------------------ *)
-Fixpoint set_nth {A} (n : nat) (v : A) (l : list A) : list A :=
+Fixpoint set_nth {A} (n : nat) (v : A) (l : list A) {struct l} : list A :=
   match l, n with
   | [], _ => []
   | _ :: r, 0 => v :: r
